@@ -69,8 +69,10 @@ structure Blk where
   time : Nat          -- header.BlockTime (seconds after genesis)
   txs : List Nat      -- body: transaction instances
   sigOk : Bool := true    -- oracle: block signature absent or valid
-  rootOk : Bool := true   -- oracle: txRoot(body) = header.TxHash
+  rootOk : Bool := true   -- oracle: txRoot(body) = header.TxHash (bytes.Equal: an EMPTY, short, long or
+                          -- all-zero declared root differs from every computed 32-byte root)
   stateOk : Bool := true  -- oracle: state root after executing the body on the parent state = header.StateHash
+                          -- (likewise bytes.Equal; `Block.Hash` covers both fields, so such a block has its own hash)
   chkOk : Option Err := none  -- oracle: consensus CheckBlock (solo: body not empty; block time ≥ parent's)
   wid : Nat := 0
 deriving DecidableEq, Repr, Inhabited
@@ -509,7 +511,8 @@ structure Tx where
   hash : Nat             -- Transaction.Hash(): every field except signature, public key and header
   sigOk : Bool           -- oracle: CheckSign
   exp : Expire
-  feeOk : Bool           -- oracle: Fee ≥ GetRealFee(minfee) (and ≤ max fee)
+  feeOk : Bool           -- oracle: Fee ≥ GetRealFee(minfee) (and ≤ max fee); for the members of a transaction
+                         -- group: txs[0].Fee ≥ Σ over the members of THEIR OWN GetRealFee (per-member rounding)
   chainOk : Bool         -- ChainID = cfg.GetChainID()
   runOk : Bool := true   -- oracle: the executor does not answer ExecErr once checkTx passed (fee payable, …)
 deriving DecidableEq, Repr, Inhabited
@@ -654,10 +657,16 @@ def parseBit (w : String) : Option Bool :=
 def parseTxs (w : String) : Option (List Nat) :=
   if w == "-" then some [] else (w.splitOn ",").mapM (·.toNat?)
 
+/-- root flags: `1` equal; `0` another 32-byte value, `e` empty, `s` one byte short, `l` one byte
+long, `z` 32 zero bytes — all unequal under bytes.Equal. -/
+def parseRoot (c : Char) : Option Bool :=
+  if c == '1' then some true
+  else if c == '0' || c == 'e' || c == 's' || c == 'l' || c == 'z' then some false else none
+
 def parseFlags (w : String) : Option (Bool × Bool × Bool × Option Err) :=
   match w.toList with
   | [a, b, c, d] =>
-    match parseBit (String.singleton a), parseBit (String.singleton b), parseBit (String.singleton c) with
+    match parseBit (String.singleton a), parseRoot b, parseRoot c with
     | some x, some y, some z =>
       if d == 'k' then some (x, y, z, none) else if d == 'e' then some (x, y, z, some .emptyTx)
       else if d == 't' then some (x, y, z, some .blockTime) else none
@@ -684,6 +693,18 @@ def handle (d : DState) (line : String) : DState × String :=
       if d.started || (d.txs.any (fun e => e.1 == i)) then (d, "bad-op") else
       ({ d with txs := d.txs ++ [(i, { hash := t, sigOk := sg, exp := ex, feeOk := fe, chainOk := ch, runOk := ru })] }, "ok")
     | _, _, _, _, _, _, _, _, _, _ => (d, "bad-op")
+  | ["grp", first, n, spec, tagbase] =>
+    -- a well-formed transaction group of n members (instances first.., hashes tagbase..); fee of the
+    -- header transaction: S = the per-member sum of real fees (S+ above it), anything else below it
+    match d.st, first.toNat?, n.toNat?, tagbase.toNat? with
+    | some _, some f, some n, some tb =>
+      if d.started || n < 2 || n > 20 || (List.range n).any (fun i => d.txs.any (fun e => e.1 == f + i)) ||
+         !(spec == "S" || spec == "S+" || spec == "S-1" || spec == "W" || spec == "M" || spec == "W-1")
+      then (d, "bad-op") else
+      let ok := spec == "S" || spec == "S+"
+      ({ d with txs := d.txs ++ (List.range n).map (fun i =>
+          (f + i, { hash := tb + i, sigOk := true, exp := .none, feeOk := ok, chainOk := true, runOk := true })) }, "ok")
+    | _, _, _, _ => (d, "bad-op")
   | ["blk", wid, hdr, par, h, bits, tm, txs, flags] =>
     match d.st, wid.toNat?, hdr.toNat?, par.toNat?, h.toNat?, bits.toNat?, tm.toNat?, parseTxs txs, parseFlags flags with
     | some _, some wid, some hdr, some par, some h, some bits, some tm, some txs, some (sg, ro, sa, ck) =>
@@ -728,6 +749,8 @@ def handle (d : DState) (line : String) : DState × String :=
     match d.st, inst.toNat? with
     | some s, some i =>
       if d.txs.any (fun e => e.1 == i) then
+        -- (mempool admission is C22's subject; of its checks the driver mirrors the fee check and the chain lookup)
+        if !(table d.txs i).feeOk then ({ d with started := true }, "ErrTxFeeTooLow") else
         ({ d with st := some (step (ofTable (table d.txs)) s (.poolAdd i)), started := true },
           if dupOnChain (ofTable (table d.txs)) s i then "ErrDupTx" else "ok")
       else (d, "bad-op")
